@@ -39,7 +39,7 @@ ASSUMPTIONS = [
     "plus injected yields; no free-threaded build available",
     "numpy/scipy deterministic for identical inputs in one process",
 ]
-REQUIRED = {"repetition_runs": 100, "argument_fingerprints": 100,
+REQUIRED = {"repetition_runs": 100, "untapped_runs": 100, "argument_fingerprints": 100,
             "module_state_entries": 100, "concurrent_calls": 200,
             "context_switches": 2000, "nested_inner_solves": 50}
 MIN_NONTRIVIAL = {"quick": 20, "thorough": 150}
@@ -128,6 +128,19 @@ def run_repeat(case):
                            f"({describe(first)} vs {describe(again)})",
                            mechanism="repetition"))
             break
+    # monitor non-interference: the same call with every tap removed must be
+    # bitwise identical at the user boundary (audits the harness itself)
+    taps.uninstall()
+    try:
+        bare = mrun.run(spec, install_taps=False)
+    finally:
+        taps.install()
+    counts["untapped_runs"] = 1
+    if signature(bare) != sig:
+        viols.append(V("taps_interfere",
+                       "harness self-check: the run without taps differs "
+                       "from the tapped run (the monitors interfere)",
+                       mechanism="harness:taps"))
     # (b) read-only inputs
     ro = mrun.run(spec, readonly=True)
     counts["readonly_runs"] = 1
